@@ -117,7 +117,7 @@ pub fn run(rep: &Reporter, thorough: bool) -> (Value, Option<String>) {
     let mut machinery = None;
     let mut capped = false;
     let mut outcomes: std::collections::BTreeSet<String> = Default::default();
-    let deadline = Instant::now() + std::time::Duration::from_secs(crate::checks::cap_mult() * if thorough { 1500 } else { 40 });
+    let deadline = Instant::now() + std::time::Duration::from_secs(crate::checks::cap_secs(if thorough { 1500 } else { 40 }));
     'mix: for mix in &mixes {
         let mut dfs = Dfs::new(0, FaultPolicy::None);
         loop {
